@@ -44,6 +44,10 @@ type c09Replay struct {
 func c09Case(w *core.Worker, i int) {
 	if i%5 == 0 {
 		c09Stress(w, i)
+		c09Creators(w, i)
+		if (i/5)%3 == 1 {
+			c09WithClause(w, i)
+		}
 		return
 	}
 	c09Schedules(w, i)
@@ -623,4 +627,146 @@ func containsInt(xs []int, x int) bool {
 		}
 	}
 	return false
+}
+
+// c09Creators: two processes create the same table at the same time (CREATE TABLE + INSERT, committed at the end), each held
+// up at one step of its acquisition or before its commit. Whatever the timing made of it: at most one of them can have
+// succeeded; if one did, the table exists afterwards and holds exactly that process's row (a committed change survives, the
+// process that could not get access changed nothing); if none did, no table exists; no control file remains.
+func c09Creators(w *core.Worker, i int) {
+	points := []string{"", "lock.checked", "lock.created", "lock.rechecked", "hold.c.begin", "txcommit.begin", "commit.data_closed"}
+	type pair struct{ pa, pb string }
+	var pairs []pair
+	k := 0
+	for _, a := range points {
+		for _, b := range points {
+			if k%7 == (i/5)%7 {
+				pairs = append(pairs, pair{a, b})
+			}
+			k++
+		}
+	}
+	type outcome struct {
+		pr     pair
+		ra, rb core.ProcResult
+		data   string
+		exists bool
+		left   []string
+	}
+	outs := make(chan outcome, len(pairs))
+	sem := make(chan struct{}, 4)
+	prog := func(who string) string {
+		return "CREATE TABLE `new.csv` (a, b); INSERT INTO `new.csv` VALUES ('" + who + "', 'row');"
+	}
+	for n, pr := range pairs {
+		d := filepath.Join(w.Work, fmt.Sprintf("creators%d", n))
+		_ = os.RemoveAll(d)
+		_ = os.MkdirAll(d, 0755)
+		go func(pr pair, d string) {
+			sem <- struct{}{}
+			defer func() { <-sem }()
+			env := func(pt string, ms int) []string {
+				if pt == "" {
+					return nil
+				}
+				return []string{fmt.Sprintf("VERIF_DELAY=%s=%d", pt, ms)}
+			}
+			ca := make(chan core.ProcResult, 1)
+			go func() {
+				ca <- core.RunProc(core.ProcOpts{Dir: d, Args: csvqArgs("-q", "--wait-timeout", "3", prog("A")), Env: env(pr.pa, 500), Timeout: 60 * time.Second})
+			}()
+			time.Sleep(150 * time.Millisecond)
+			rb := core.RunProc(core.ProcOpts{Dir: d, Args: csvqArgs("-q", "--wait-timeout", "3", prog("B")), Env: env(pr.pb, 700), Timeout: 60 * time.Second})
+			ra := <-ca
+			o := outcome{pr: pr, ra: ra, rb: rb}
+			if b, err := os.ReadFile(filepath.Join(d, "new.csv")); err == nil {
+				o.exists, o.data = true, string(b)
+			}
+			for _, nm := range core.TakeSnap(d).Names() {
+				if core.IsControlFile(nm) {
+					o.left = append(o.left, nm)
+				}
+			}
+			_ = os.RemoveAll(d)
+			outs <- o
+		}(pr, d)
+	}
+	for range pairs {
+		o := <-outs
+		desc := fmt.Sprintf("creator A held at %q, creator B (started 150 ms later) held at %q; exits %d and %d", o.pr.pa, o.pr.pb, o.ra.Code, o.rb.Code)
+		rep := c09Replay{Kind: "creators", Detail: desc + "; VERIF_DELAY=" + o.pr.pa + "=500 / " + o.pr.pb + "=700; program: " + prog("A|B")}
+		winners := ""
+		if o.ra.Code == 0 {
+			winners += "A"
+		}
+		if o.rb.Code == 0 {
+			winners += "B"
+		}
+		switch {
+		case len(winners) == 2:
+			w.Violation("creators:both-succeeded", desc+": both processes report the table as created and committed", rep)
+		case len(winners) == 1 && !o.exists:
+			w.Violation("creators:committed-table-gone", desc+": "+winners+" committed the new table, yet no file exists afterwards ("+truncateStr(o.ra.Stderr+o.rb.Stderr, 160)+")", rep)
+		case len(winners) == 1 && o.data != "a,b\n"+winners+",row\n":
+			w.Violation("creators:table", fmt.Sprintf("%s: %s committed, the file holds %q", desc, winners, o.data), rep)
+		case len(winners) == 0 && o.exists:
+			w.Violation("creators:table", fmt.Sprintf("%s: neither process succeeded, yet a file exists: %q", desc, o.data), rep)
+		}
+		if len(o.left) > 0 {
+			w.Violation("creators:leftover", fmt.Sprintf("%s: control files left: %v", desc, o.left), rep)
+		}
+		for _, rr := range []core.ProcResult{o.ra, o.rb} {
+			if strings.Contains(rr.Stderr, "Fatal Error") || strings.Contains(rr.Stderr, "panic:") {
+				w.Violation("creators:internal-failure", desc+": "+truncateStr(rr.Stderr, 200), rep)
+			}
+		}
+		w.Count("racing_creations_run", 1)
+		if len(winners) == 1 {
+			w.Count("racing_creations_with_one_winner", 1)
+		}
+		w.Note("creator_pairs", o.pr.pa+"|"+o.pr.pb)
+		w.Case(core.Digest("creators", o.pr.pa, o.pr.pb, fmt.Sprint(i)), len(winners) == 1)
+	}
+}
+
+// c09WithClause: the read-modify-write is ONE data-changing statement whose WITH clause reads the table it updates. The
+// statement is the transaction's first data-changing statement, so the table is to be held from there on: N committed
+// increments must add up to N. (Kept apart from the stress round so that its verdict names this statement form.)
+func c09WithClause(w *core.Worker, i int) {
+	d := core.FreshDir(w.Work, "withclause")
+	core.WriteFiles(d, map[string]string{"counter.csv": "id,n\n1,0\n"})
+	forms := []string{
+		"WITH w AS (SELECT n FROM counter) UPDATE counter SET n = (SELECT n FROM w) + 1;",
+		"WITH w AS (SELECT n + 1 AS m FROM counter) UPDATE counter SET n = w.m FROM counter CROSS JOIN w;",
+	}
+	form := forms[(i/15)%len(forms)]
+	var committed int64
+	var wg sync.WaitGroup
+	for c := 0; c < 6; c++ {
+		wg.Add(1)
+		go func() {
+			defer wg.Done()
+			for k := 0; k < 5; k++ {
+				res := core.RunProc(core.ProcOpts{Dir: d, Args: csvqArgs("-q", "--wait-timeout", "30", form), Timeout: 120 * time.Second})
+				if res.Code == 0 {
+					atomic.AddInt64(&committed, 1)
+				} else if res.Code != 8 {
+					w.Violation("with-clause:unexpected-exit", fmt.Sprintf("%s ended with %s", form, res), c09Replay{Kind: "with-clause", Detail: form})
+				}
+			}
+		}()
+	}
+	wg.Wait()
+	b, _ := os.ReadFile(filepath.Join(d, "counter.csv"))
+	got := -1
+	fmt.Sscanf(string(b), "id,n\n1,%d\n", &got)
+	rep := c09Replay{Kind: "with-clause", Detail: fmt.Sprintf("6 clients x 5 runs of: %s", form)}
+	switch {
+	case got >= 0 && int64(got) < committed:
+		w.Violation("with-clause:target-read-before-it-is-held", fmt.Sprintf("%d runs of %q committed, the counter stands at %d: increments were lost", committed, form, got), rep)
+	case int64(got) != committed:
+		w.Violation("with-clause:table", fmt.Sprintf("%d runs of %q committed, the table is %q", committed, form, string(b)), rep)
+	}
+	w.Count("with_clause_increments_committed", committed)
+	w.Case(core.Digest("withclause", fmt.Sprint(i)), committed >= 20)
 }
